@@ -632,6 +632,56 @@ func gen(g *hx.Gen) {
 		g.Exhaustive(fmt.Sprintf("all subsets of the words of length <= %d over %q x every pattern and every anagram of length <= %d over %q with blank %q",
 			maxWord, alpha, maxPat, palpha, blank))
 	}
+	// two searchers combined, exhaustively: every pair of bodies, every pair of kinds
+	exh2 := func(maxWord int, alpha []byte, maxPat int, palpha []byte, blank byte) {
+		var all [][]byte
+		var rec func(w []byte)
+		rec = func(w []byte) {
+			all = append(all, append([]byte{}, w...))
+			if len(w) == maxWord {
+				return
+			}
+			for _, c := range alpha {
+				rec(append(w, c))
+			}
+		}
+		rec(nil)
+		all = sortDedupe(all)
+		var pats [][]byte
+		var recp func(w []byte)
+		recp = func(w []byte) {
+			pats = append(pats, append([]byte{}, w...))
+			if len(w) == maxPat {
+				return
+			}
+			for _, c := range palpha {
+				recp(append(w, c))
+			}
+		}
+		recp(nil)
+		for mask := 0; mask < 1<<uint(len(all)); mask++ {
+			var ws [][]byte
+			for i, w := range all {
+				if mask>>uint(i)&1 == 1 {
+					ws = append(ws, w)
+				}
+			}
+			for _, p := range pats {
+				for _, q := range pats {
+					do([]spec{{'P', p, blank}, {'A', q, blank}}, ws)
+					do([]spec{{'A', p, blank}, {'A', q, blank}}, ws)
+					do([]spec{{'A', p, blank}, {'P', q, blank}}, ws)
+				}
+			}
+		}
+		g.Exhaustive(fmt.Sprintf("all subsets of the words of length <= %d over %q x every pair of bodies of length <= %d over %q (pattern+anagram, anagram+anagram, anagram+pattern) with blank %q",
+			maxWord, alpha, maxPat, palpha, blank))
+	}
+	if g.Thorough() {
+		exh2(2, []byte("ab"), 2, []byte("ab?"), '?')
+	} else {
+		exh2(2, []byte("a"), 2, []byte("a?"), '?')
+	}
 	if g.Thorough() {
 		exh(2, []byte("ab"), 3, []byte("ab?"), '?')
 		exh(2, []byte("ab"), 3, []byte("ab"), 'b') // the blank byte is a letter
@@ -641,7 +691,7 @@ func gen(g *hx.Gen) {
 		exh(2, []byte("ab"), 2, []byte("ab"), 'b')
 	}
 
-	count := g.Pick(5000, 150000)
+	count := g.Pick(5000, 400000)
 	for i := 0; i < count; i++ {
 		alpha := randAlphabet(r)
 		words := randWords(r, alpha)
@@ -673,7 +723,7 @@ func gen(g *hx.Gen) {
 		do(specs, words)
 	}
 	// long words with repeated letters and anagrams of more than 12 letters
-	countLong := g.Pick(300, 6000)
+	countLong := g.Pick(300, 12000)
 	for i := 0; i < countLong; i++ {
 		alpha := []byte("ab")
 		if r.Chance(1, 3) {
